@@ -548,7 +548,7 @@ def rule_structural_discharges(ctx):
     for b in fx.body_list:
         if "::tests::" in b["def_path"] or not hq.calls(b["body"], "tau_star::tau_star_rule"):
             continue
-        v = _ftpl.canon_iter(sym.Eval(fx, inline_depth=0).function(b))
+        v = _ftpl.canon_closures(_ftpl.canon_iter(sym.Eval(fx, inline_depth=0).function(b)))
         calls_ = [x for x in sym.subterms(v) if isinstance(x, tuple) and x[:2] == ("call", "tau_star::tau_star_rule") and len(x[2]) == 2]
         good = bool(calls_)
         roots = set()
